@@ -85,9 +85,13 @@ def parse_kp(n, kp_hex):
             "y2s": [y.hex() for y in y2s]}
 
 
-def generated_key(h, pts, n, seed, tape=()):
-    """KeyPair::new under the scripted RNG; the key is expressed in its own basis (g1, g2 := 1)."""
-    h.rng(seed, tape)
+def generated_key(h, pts, n, seed, tape=(), blocks=None):
+    """KeyPair::new under the scripted RNG; the key is expressed in its own basis (g1, g2 := 1).
+    `blocks`: full 64-byte draws (integers) instead of scalars, e.g. non-zero multiples of q."""
+    if blocks is not None:
+        h.rng_blocks(seed, blocks)
+    else:
+        h.rng(seed, tape)
     kp_hex = h.call("kp_new", n)[0]
     a = parse_kp(n, kp_hex)
     basis = Basis(h, pts, a["g1"], a["g2"])
